@@ -49,6 +49,7 @@ func DefaultCfg() Cfg {
 
 // G generates one module.
 type G struct {
+	twins         map[*am.Fun]bool
 	lastBundles   []*am.Bundle
 	lastBundleBlk *am.Block
 	adv           *AdvNames
